@@ -83,6 +83,9 @@ pub enum Cb {
     Key,
     /// std.sorted(v) (v is a table)
     NestedSorted,
+    /// a function value (script function / native function / closure, by the number modulo 3) if
+    /// i < c, else nil: function values are truthy (filter / any only)
+    FuncIfIdxLt(i64),
 }
 
 /// key functions for *_by_key: declared (key, value)
@@ -220,6 +223,14 @@ impl Cb {
                 Obs::Int(*counter)
             }
             Cb::Key => k.clone(),
+            // only the truthiness matters where this one is used
+            Cb::FuncIfIdxLt(cst) => {
+                if i < *cst {
+                    Obs::Int(1)
+                } else {
+                    Obs::Nil
+                }
+            }
             Cb::NestedSorted => match v {
                 Obs::Table(e, _) => {
                     let keys: Vec<Obs> = e.iter().map(|(_, v)| v.clone()).collect();
@@ -234,7 +245,7 @@ impl Cb {
         let mut f = Function::default();
         let params: &[&str] = if short {
             match self {
-                Cb::IdxLt(_) => &["k", "v", "i"],
+                Cb::IdxLt(_) | Cb::FuncIfIdxLt(_) => &["k", "v", "i"],
                 Cb::Key | Cb::Const(_) | Cb::Counter => &["k"],
                 _ => &["k", "v"],
             }
@@ -261,6 +272,17 @@ impl Cb {
                 Card::return_card(Card::read_var("counter")),
             ],
             Cb::Key => vec![Card::return_card(Card::read_var("k"))],
+            Cb::FuncIfIdxLt(cst) => vec![
+                c(CardBody::IfTrue(bin(
+                    c(CardBody::Less(bin(Card::read_var("i"), Card::scalar_int(*cst)))),
+                    Card::return_card(match cst.rem_euclid(3) {
+                        0 => c(CardBody::Function("std.sorted".into())),
+                        1 => c(CardBody::NativeFunction("id".into())),
+                        _ => c(CardBody::Closure(Box::new(Function::default().with_card(Card::return_card(Card::scalar_int(1)))))),
+                    }),
+                ))),
+                Card::return_card(c(CardBody::ScalarNil)),
+            ],
             Cb::NestedSorted => vec![Card::return_card(Card::call_function("std.sorted", vec![Card::read_var("v")]))],
         };
         f.cards = body;
@@ -374,6 +396,7 @@ fn gen_case(rng: &mut Rng) -> Case {
     }
     let all_tables = !entries.is_empty() && entries.iter().all(|(_, v)| matches!(v, V::Tab(_)));
     let cb = match fun {
+        Fun::Filter | Fun::Any if rng.chance(1, 10) => Some(Cb::FuncIfIdxLt(rng.range(0, 8))),
         Fun::Filter | Fun::Map | Fun::Any => Some(match rng.below(if all_tables { 10 } else { 9 }) {
             0 => Cb::ValLt(rng.range(-2, 4)),
             1 => Cb::IdxLt(rng.range(0, 8)),
@@ -454,6 +477,8 @@ fn build(case: &Case) -> Module {
         Fun::SortedByKey => Card::call_function("std.sorted_by_key", vec![case.keyfn.as_ref().unwrap().function(short), input]),
     };
     main.cards.push(Card::set_global_var("g_out", call));
+    // the counting callbacks / key functions count in a captured local of main
+    main.cards.push(Card::set_global_var("g_calls", Card::read_var("counter")));
     main.cards.push(Card::set_global_var("g_done", Card::scalar_int(1)));
     let mut m = Module::default();
     m.functions.push(("main".into(), main));
@@ -472,12 +497,19 @@ fn row(k: &Obs, v: &Obs) -> Obs {
     Obs::Table(vec![(Obs::Str("key".into()), k.clone()), (Obs::Str("value".into()), v.clone())], 0)
 }
 
-/// the executable specification
+/// the executable specification: (input afterwards, result)
 fn expected(case: &Case) -> (Obs, Obs) {
+    let (a, b, _) = expected_with_calls(case);
+    (a, b)
+}
+
+/// ... and how often the callback / key function has been called (once per row, in order; `any`
+/// stops at the first hit)
+fn expected_with_calls(case: &Case) -> (Obs, Obs, i64) {
     let entries: Vec<(Obs, Obs)> = case.entries.iter().map(|(k, v)| (k.obs(), v.obs())).collect();
     let input = Obs::Table(entries.clone(), 0);
     if let Some(nt) = &case.non_table {
-        return (input, nt.obs());
+        return (input, nt.obs(), 0);
     }
     let mut counter = 0i64;
     let out = match case.fun {
@@ -536,7 +568,7 @@ fn expected(case: &Case) -> (Obs, Obs) {
         }
         Fun::ToArray => Obs::Table(entries.iter().enumerate().map(|(i, (_, v))| (Obs::Int(i as i64), v.clone())).collect(), 0),
     };
-    (input, out)
+    (input, out, counter)
 }
 
 fn first_aspect(want: &Obs, got: Option<&Obs>) -> &'static str {
@@ -604,6 +636,17 @@ fn judge(case: &Case, out: &RunOut, budget_fault: bool, fault_error: &str) -> Ve
     if out.result != "Ok" {
         v.push((json!({"fun": fname, "aspect": "run-failed", "error": innermost(&out.result)}), format!("{fname}: run ended with {} ({})", out.result, out.error_msg)));
         return v;
+    }
+    // a counting callback / key function is called once per row (only they touch the counter)
+    let counts = matches!(case.cb, Some(Cb::Counter)) || matches!(case.keyfn, Some(KeyFn::NegCounter));
+    if counts && case.non_table.is_none() {
+        let want_calls = expected_with_calls(case).2;
+        if out.globals.get("g_calls") != Some(&Obs::Int(want_calls)) {
+            v.push((
+                json!({"fun": fname, "aspect": "callback-call-count"}),
+                format!("{fname}: the callback counted {:?} calls, the table has {} rows (expected {want_calls})", out.globals.get("g_calls").map(|o| o.short()), case.entries.len()),
+            ));
+        }
     }
     let got = out.globals.get("g_out");
     if got != Some(&want_out) {
